@@ -9,16 +9,30 @@ VARIABLE l
 tvars == <<vars, l>>
 
 SeqToSet(s) == {s[i] : i \in 1..Len(s)}
-Match(s, o) == /\ DOMAIN s = DOMAIN o
-               /\ \A f \in DOMAIN s \ {"w"} : s[f] = o[f]
-               /\ s.w = SeqToSet(o.w)
+\* Detailed level: everything logged equals the specification's prediction.  Property level (C15):
+\* the header bytes found in the file may differ from the predicted ones as long as the *documented*
+\* reader (ParseHdr / ReadSeg) reads them back, from the reader state before the step, to the chunk that
+\* was written, without warning -- then the step is accepted and reported as drift.
+Detailed(s, o) == /\ DOMAIN s = DOMAIN o
+                  /\ \A f \in DOMAIN s \ {"w"} : s[f] = o[f]
+                  /\ s.w = SeqToSet(o.w)
+PropertyLevel(s, o) ==
+  /\ DOMAIN s = DOMAIN o /\ "h" \in DOMAIN s
+  /\ \A f \in DOMAIN s \ {"w", "h"} : s[f] = o[f]
+  /\ s.w = SeqToSet(o.w)
+  /\ LET a == Rec[l].act
+         r == ReadSeg(rcur, [h |-> o.h, body |-> o.body, id |-> IF a.a = "data" THEN a.id ELSE 0,
+                             m4 |-> IF a.a = "data" THEN a.m4 ELSE 0])
+     IN r.err = "none" /\ r.w = {} /\ r.chunk = s.chunk
+Match(s, o) == IF Detailed(s, o) THEN TRUE
+               ELSE PropertyLevel(s, o) /\ PrintT(<<"TRACE DRIFT at event", l, Rec[l]>>)
 
 TraceInit == Init /\ l = 1
 TraceNext ==
   /\ l <= Len(Rec)
   /\ Step(Rec[l].act)
-  /\ Match(out', Rec[l].out)
   /\ l' = l + 1
+  /\ Match(out', Rec[l].out)
 TraceSpec == TraceInit /\ [][TraceNext]_tvars
 
 TraceAccepted ==
